@@ -88,6 +88,11 @@ func readEvents(path string) (torn int, items []string) {
 		}
 		switch ev.Type {
 		case common.ActionLoginIdentifier:
+			if ev.Outcome != auditevent.OutcomeSucceeded {
+				// a failed login of the noise stream: identified by its port
+				items = append(items, fmt.Sprintf("F:%v", ev.Source.Extra["port"]))
+				continue
+			}
 			items = append(items, "L:"+ev.Subjects["pid"])
 		case common.ActionUserAction:
 			items = append(items, fmt.Sprintf("A:%s:%d", ev.Metadata.AuditID, ev.LoggedAt.Unix()))
@@ -116,7 +121,11 @@ func parkedIn(buf []byte, fn string) bool {
 	return false
 }
 
-func runHandoffInProcess(ss []hsess, delaySshd, delayAudit int, rng *uint64) string {
+func noiseMsg(i int) string {
+	return fmt.Sprintf("Invalid user n%d from 10.1.1.1 port %d", i, 20000+i)
+}
+
+func runHandoffInProcess(ss []hsess, delaySshd, delayAudit int, rng *uint64, noise int) string {
 	dir, err := os.MkdirTemp("", "verif-handoff")
 	if err != nil {
 		return "T:1|"
@@ -159,12 +168,23 @@ func runHandoffInProcess(ss []hsess, delaySshd, delayAudit int, rng *uint64) str
 	go func() {
 		defer wg.Done()
 		time.Sleep(time.Duration(delaySshd) * time.Microsecond)
+		per := 0
+		if len(ss) > 0 {
+			per = noise / len(ss)
+		}
+		k := 0
 		for i, s := range ss {
 			if pausesS[i] > 0 {
 				time.Sleep(time.Duration(pausesS[i]) * time.Microsecond)
 			}
 			if err := proc.ProcessSshdLogEntry(ctx, sshd.SshdLogEntry{PID: strconv.Itoa(s.pid), Message: s.sshdMsg()}); err != nil {
 				return
+			}
+			for j := 0; j < per || (i == len(ss)-1 && k < noise); j++ {
+				if err := proc.ProcessSshdLogEntry(ctx, sshd.SshdLogEntry{PID: "5", Message: noiseMsg(k)}); err != nil {
+					return
+				}
+				k++
 			}
 		}
 	}()
@@ -220,7 +240,7 @@ func runHandoffInProcess(ss []hsess, delaySshd, delayAudit int, rng *uint64) str
 	return fmt.Sprintf("T:%d|%s", t, strings.Join(items, ";"))
 }
 
-func runHandoffDaemon(ss []hsess, delaySshd, delayAudit int) string {
+func runHandoffDaemon(ss []hsess, delaySshd, delayAudit int, noise int) string {
 	d, err := startDaemon(true, true, "")
 	if err != nil || d.sshdW == nil || d.auditW == nil {
 		if d != nil {
@@ -229,7 +249,7 @@ func runHandoffDaemon(ss []hsess, delaySshd, delayAudit int) string {
 		return "T:1|!start"
 	}
 	defer d.stop()
-	want := 0
+	want := noise
 	for _, s := range ss {
 		want += 1 + s.k + 2
 	}
@@ -239,8 +259,21 @@ func runHandoffDaemon(ss []hsess, delaySshd, delayAudit int) string {
 		defer wg.Done()
 		time.Sleep(time.Duration(delaySshd) * time.Microsecond)
 		var b strings.Builder
+		per := 0
+		if len(ss) > 0 {
+			per = noise / len(ss)
+		}
+		k := 0
 		for i, s := range ss {
 			fmt.Fprintf(&b, "%d %s\n", s.pid, s.sshdMsg())
+			for j := 0; j < per || (i == len(ss)-1 && k < noise); j++ {
+				fmt.Fprintf(&b, "5 %s\n", noiseMsg(k))
+				k++
+				if b.Len() > 3000 {
+					d.sshdW.Write([]byte(b.String()))
+					b.Reset()
+				}
+			}
 			if i%3 == 2 { // bursts of three records per write
 				d.sshdW.Write([]byte(b.String()))
 				b.Reset()
@@ -277,13 +310,13 @@ func runHandoffDaemon(ss []hsess, delaySshd, delayAudit int) string {
 		}
 	}()
 	wg.Wait()
-	deadline := time.Now().Add(8 * time.Second)
+	deadline := time.Now().Add(8*time.Second + time.Duration(want/2000)*time.Second)
 	for time.Now().Before(deadline) {
 		data, _ := os.ReadFile(d.outPath)
 		if strings.Count(string(data), "\n") >= want {
 			break
 		}
-		time.Sleep(5 * time.Millisecond)
+		time.Sleep(5*time.Millisecond + time.Duration(want/50)*time.Microsecond)
 	}
 	time.Sleep(30 * time.Millisecond) // anything written twice would show up now
 	d.cmd.Process.Signal(syscall.SIGTERM)
@@ -296,7 +329,7 @@ func runHandoffDaemon(ss []hsess, delaySshd, delayAudit int) string {
 }
 
 func init() {
-	// handoff <id> <p|d> <pid:ses:k:base,…> <delaySshd_us>:<delayAudit_us> [seed]
+	// handoff <id> <p|d> <pid:ses:k:base,…> <delaySshd_us>:<delayAudit_us> [seed] [noise=<n>]
 	modes["handoff"] = func(in *bufio.Scanner, out *bufio.Writer) {
 		rng := uint64(1)
 		for in.Scan() {
@@ -312,11 +345,17 @@ func init() {
 				s, _ := strconv.ParseUint(f[4], 10, 64)
 				rng = s
 			}
+			noise := 0
+			for _, x := range f[4:] {
+				if strings.HasPrefix(x, "noise=") {
+					noise, _ = strconv.Atoi(x[6:])
+				}
+			}
 			var res string
 			if f[1] == "d" {
-				res = runHandoffDaemon(ss, ds, da)
+				res = runHandoffDaemon(ss, ds, da, noise)
 			} else {
-				res = runHandoffInProcess(ss, ds, da, &rng)
+				res = runHandoffInProcess(ss, ds, da, &rng, noise)
 			}
 			fmt.Fprintf(out, "%s %s\n", f[0], res)
 			out.Flush()
